@@ -64,7 +64,14 @@ class ScaleMixtureNormal(CallableModel):
         )
 
     def _sample_shape(self) -> Size:
-        return self.x.tensor.shape[:-1]
+        # any of the inputs may carry the sample dimension (e.g. a sampled global
+        # scale above a fixed field)
+        shapes = [
+            p.tensor.shape[:-1]
+            for p in (self.x, self.loc, self.gobal_scale, self.local_scale, self.slab)
+            if isinstance(p, AbstractParameter)
+        ]
+        return max(shapes, key=len)
 
     def handle_model_changed(self, model, obj, index) -> None:
         pass
